@@ -146,6 +146,14 @@ static ACTIVE: AtomicBool = AtomicBool::new(false);
 // getrandom state lives outside SIM: std asks for hash keys while SIM may be locked
 static RNG: AtomicU64 = AtomicU64::new(0);
 static GETRANDOM_CALLS: AtomicU64 = AtomicU64::new(0);
+/// While the harness holds a reader on the thread that commits, growing the file would block
+/// forever on the map lock (documented misuse of the library). The harness forbids growth
+/// for such commits: the extension fails with ENOSPC and the run is skipped, not judged.
+static GROWTH_BLOCK: AtomicBool = AtomicBool::new(false);
+static GROWTH_BLOCKED: AtomicU64 = AtomicU64::new(0);
+/// a blocked flock returns EINTR (a signal arrived) after this many waits; 0 = never
+static FLOCK_EINTR_AFTER: AtomicU64 = AtomicU64::new(0);
+static FLOCK_EINTRS: AtomicU64 = AtomicU64::new(0);
 /// optional scheduling hook (set by the shuttle engine); called before every tracked call
 static YIELD_HOOK: AtomicUsize = AtomicUsize::new(0);
 /// called while a simulated blocking call (flock) has to wait: must tell the scheduler that
@@ -228,6 +236,22 @@ pub fn reset(prefix: &str, hash_seed: u64) {
 pub fn set_hash_seed(seed: u64) {
     RNG.store(seed, Ordering::SeqCst);
     ACTIVE.store(true, Ordering::SeqCst);
+}
+
+pub fn set_flock_eintr_after(n: u64) {
+    FLOCK_EINTR_AFTER.store(n, Ordering::SeqCst);
+}
+
+pub fn flock_eintrs() -> u64 {
+    FLOCK_EINTRS.load(Ordering::SeqCst)
+}
+
+pub fn set_growth_block(on: bool) {
+    GROWTH_BLOCK.store(on, Ordering::SeqCst);
+}
+
+pub fn growth_blocked() -> u64 {
+    GROWTH_BLOCKED.load(Ordering::SeqCst)
 }
 
 pub fn set_logging(on: bool) {
@@ -741,6 +765,14 @@ pub unsafe extern "C" fn sync_file_range(fd: c_int, off: off64_t, n: off64_t, fl
 
 unsafe fn set_len(fd: c_int, len: u64, shrink_ok: bool, call: Call) -> c_int {
     maybe_yield();
+    if GROWTH_BLOCK.load(Ordering::SeqCst) && call == Call::Fallocate {
+        let cur = with(|s| s.files[s.fds[&fd].fid as usize].len);
+        if len > cur {
+            GROWTH_BLOCKED.fetch_add(1, Ordering::SeqCst);
+            set_errno(libc::ENOSPC);
+            return -1;
+        }
+    }
     if let Decision::Fail(e) = with(|s| decide(s, call)) {
         set_errno(e);
         return -1;
@@ -913,6 +945,13 @@ pub unsafe extern "C" fn flock(fd: c_int, op: c_int) -> c_int {
                     return -1;
                 }
                 spins += 1;
+                let ea = FLOCK_EINTR_AFTER.load(Ordering::SeqCst);
+                if ea > 0 && spins == ea {
+                    // a signal interrupts the wait: flock(2) fails with EINTR, nothing is held
+                    FLOCK_EINTRS.fetch_add(1, Ordering::SeqCst);
+                    set_errno(libc::EINTR);
+                    return -1;
+                }
                 if spins > 1_000_000 {
                     set_errno(libc::EDEADLK);
                     return -1;
